@@ -153,10 +153,21 @@ impl Property for C27 {
             let (permille, mask) = super::c26::swarm_faults(&mut fr, w);
             case.fault_permille = permille;
             case.fault_mask = mask;
+            // swarm: a few runs with long top-level lists (with few faults, or the list is cut short)
+            case.list_scale = match fr.below(40) {
+                0 => 2,
+                1..=2 => 1,
+                _ => 0,
+            };
+            if case.list_scale > 0 {
+                case.fault_permille = case.fault_permille.min(5);
+            }
             for s in 0..SCHEDULES_PER_WORLD {
                 case.schedule = Schedule {
                     seed: sr.next_u64(),
                     max_pending: *sr.pick(&[1, 2, 2, 3, 4]),
+                    // swarm: all-ready async runs, sparse and dense pending
+                    pending_permille: *sr.pick(&[0, 20, 100, 600, 600, 900]),
                     spurious_permille: *sr.pick(&[0, 0, 50, 200]),
                     ..Default::default()
                 };
@@ -172,6 +183,7 @@ impl Property for C27 {
         };
         if unit % every == 0 {
             case.world_seed = mix(&[run_seed, 0xC0FFEE, 1]);
+            case.list_scale = 0;
             let (permille, mask) = (150, exec::ALL_FAULTS);
             case.fault_permille = permille;
             case.fault_mask = mask;
